@@ -91,6 +91,19 @@ def core_corpus(rng):
                           "variants": [{"style": "tuple", "fields": [dict(pk, dbg_ignore=True), dict(plain)]}, {"style": "unit", "fields": []}]})
         specs.append({"kind": "struct", "derived": full, "entry": entry, "generic": False, "codebug": "last",
                       "variants": [{"style": "tuple", "fields": [dict(plain, dbg_ignore=True), dict(rev), dict(plain, dbg_ignore=True)]}]})
+    # `key = $` on the more specific attribute, another key on a less specific one; an explicit discriminant on the first variant only
+    def with_keys(combo, keys):
+        f, keysel = field("V", combo)
+        f["key"] = dict(f["key"], **keys)
+        return f if G.field_ok("V", combo, keysel, full) else None
+    for entry in ("attr", "derive"):
+        fs = [with_keys(("key", "key", "-", "-", "-"), {"partial_ord": "$"}), with_keys(("key", "-", "key", "-", "-"), {"eq": "$"}),
+              with_keys(("key", "key", "key", "key", "-"), {"partial_eq": "$", "partial_ord": "$"})]
+        fs = [f for f in fs if f]
+        if fs:
+            specs.append({"kind": "struct", "derived": full, "entry": entry, "generic": False, "variants": [{"style": "named", "fields": fs}]})
+        specs.append({"kind": "enum", "derived": full, "entry": entry, "generic": False, "disc": "mixed", "variants": [
+            {"style": "tuple", "fields": [dict(plain)]}, {"style": "unit", "fields": []}, {"style": "named", "fields": [dict(plain)]}, {"style": "unit", "fields": []}]})
     # twelve fields: the lexicographic order follows the declaration order, not the text order of names / indices (f10 < f2)
     for style in ("tuple", "named"):
         for kind in ("struct", "enum"):
